@@ -2,12 +2,14 @@
 """copy confirmed seeds from /tmp/seeds/<ID>/<A|B> (with eval.json) to /verif/seeded/<ID>-<A|B>/"""
 import glob, json, os, shutil, sys
 WAVE3_MISSED = {"C02-C","C02-D","C03-D","C04-D","C06-C","C07-C","C08-C","C08-D","C09-D","C10-C","C12-C","C13-C","C13-D","C14-D","C15-C","C16-C","C16-D","C17-C","C17-D","C18-D","C19-C","C19-D","C20-C","C20-D"}
+WAVE5_MISSED = {"C01-E","C02-F","C04-E","C04-F","C05-E","C05-F","C06-E","C06-F","C07-E","C07-F","C08-E","C08-F","C09-E","C10-E","C11-E","C11-F","C12-E","C12-F","C13-E","C13-F","C14-F","C15-F","C16-E","C16-F","C17-F","C18-F","C19-F","C20-E"}
 OBSOLETE = {"C13-B": "no longer breaks the property since fix ef660b4 (backtick cache positions are monotone and only trusted from the earliest completed scan on, so a shared dict can no longer make a parse skip a closer); kept for the record (patch rebased onto the current tree; its demo passes now)"}
 MISSED_FIRST = {"C01-A","C04-A","C04-B","C05-B","C07-A","C08-A","C09-A","C10-B","C11-B","C12-A","C13-A","C13-B","C15-A","C17-B","C19-B"}
 rows=[]
-for d in sorted(glob.glob("/tmp/seeds/C*/[AB]"))+sorted(glob.glob("/tmp/seeds3/C*/[AB]")):
+for d in sorted(glob.glob("/tmp/seeds/C*/[AB]"))+sorted(glob.glob("/tmp/seeds3/C*/[AB]"))+sorted(glob.glob("/tmp/seeds5/C*/[AB]")):
     pid=d.split("/")[-2]; v=d.split("/")[-1]
     if "/seeds3/" in d: v={"A":"C","B":"D"}[v]
+    if "/seeds5/" in d: v={"A":"E","B":"F"}[v]
     name=f"{pid}-{v}"
     ev=os.path.join(d,"eval.json")
     if not os.path.exists(ev): continue
@@ -26,10 +28,10 @@ for d in sorted(glob.glob("/tmp/seeds/C*/[AB]"))+sorted(glob.glob("/tmp/seeds3/C
           "confirmed":{"suite_with_patch":e["suite_with_patch"],"demo_without_patch_rc":e["demo_without_patch_rc"],"demo_with_patch_rc":e["demo_with_patch_rc"],
                        "how":"tools/seed_eval.py: scratch copy of /repo, pytest tests (875 passed / 32 linkify failures expected), demo.py with and without the patch"},
           "detected_by":{k:{"exit":v["rc"],"violation_classes":v["classes"][:3]} for k,v in caught.items()},
-          "missed_by_first_version_of_the_check": name in MISSED_FIRST or name in WAVE3_MISSED}
+          "missed_by_first_version_of_the_check": name in MISSED_FIRST or name in WAVE3_MISSED or name in WAVE5_MISSED}
     if name in OBSOLETE: meta["obsolete"]=OBSOLETE[name]
     json.dump(meta,open(os.path.join(out,"meta.json"),"w"),indent=1)
-    rows.append((name,pid,[k for k,v in caught.items() if v["rc"]==1] if name not in OBSOLETE else ["(obsolete: neutralised by a fix)"], name in MISSED_FIRST or name in WAVE3_MISSED, (notes.strip().splitlines() or [""])[0][:110]))
+    rows.append((name,pid,[k for k,v in caught.items() if v["rc"]==1] if name not in OBSOLETE else ["(obsolete: neutralised by a fix)"], name in MISSED_FIRST or name in WAVE3_MISSED or name in WAVE5_MISSED, (notes.strip().splitlines() or [""])[0][:110]))
 with open("/verif/seeded/README.md","w") as fh:
     fh.write("# Seeded property-breaking changes\n\nEach directory holds `patch.diff` (applies with `git -C /repo apply`), `demo.py` (fails with the change, passes without), the author's `notes.md` and `meta.json`.\n"
              "All were written by sub-agents that saw only the property text and a scratch worktree (round 2, suffixes -C/-D: also the one-line titles of the round-1 changes, to avoid repeats); each was confirmed with `tools/seed_eval.py` (suite still 875 passed / 32 linkify failures with the change; demo exit 1 with, 0 without).\n"
